@@ -216,3 +216,28 @@ func Harness_C17_paren_groups() {
 	verifAssert(t_paren_arith(i, j, k) == (i-(j-k))-((i-j)+(k+1))+(i-(j-k)), "t_paren_arith: parenthesised arithmetic groups")
 	verifCover("end")
 }
+
+func Harness_C17_cmp_all() {
+	a, b := verifInt("a"), verifInt("b")
+	want := 0
+	if a >= b {
+		want += 1
+	}
+	if a <= b {
+		want += 2
+	}
+	if a > b {
+		want += 4
+	}
+	if a < b {
+		want += 8
+	}
+	if a == b {
+		want += 16
+	}
+	if a != b {
+		want += 32
+	}
+	verifAssert(t_cmp_all(a, b) == want, "t_cmp_all: >= <= > < = <> at and around the boundary")
+	verifCover("end")
+}
